@@ -894,6 +894,45 @@ func genGuards(repo string) (string, []string, error) {
 		}
 	}
 
+	// routes of x/gov's legacy content router (app/keepers.go): whatever is routed there runs only
+	// through gov (parameter-change proposals of the modules that still use x/params, …)
+	if kf, err := parser.ParseFile(fset, filepath.Join(repo, "app/keepers.go"), nil, 0); err == nil {
+		var routes []string
+		ast.Inspect(kf, func(n ast.Node) bool {
+			c, ok := n.(*ast.CallExpr)
+			if !ok {
+				return true
+			}
+			se, ok := c.Fun.(*ast.SelectorExpr)
+			if !ok || se.Sel.Name != "AddRoute" || len(c.Args) != 2 {
+				return true
+			}
+			// only the gov router chain: its root identifier is govRouter
+			root := se.X
+			for {
+				if cc, ok := root.(*ast.CallExpr); ok {
+					if s2, ok := cc.Fun.(*ast.SelectorExpr); ok {
+						root = s2.X
+						continue
+					}
+				}
+				break
+			}
+			if id, ok := root.(*ast.Ident); ok && id.Name == "govRouter" {
+				routes = append(routes, exprStr(fset, c.Args[0])+" "+exprStr(fset, c.Args[1]))
+			}
+			return true
+		})
+		sort.Strings(routes)
+		for _, r := range routes {
+			parts := strings.SplitN(r, " ", 2)
+			rows = append(rows, guardRow{key: "govroute." + parts[0], service: "gov-legacy-router", method: parts[1], legacy: true,
+				res: guardRes{kind: "govRouted", first: true}})
+		}
+	} else {
+		notes = append(notes, "app/keepers.go not parsed: gov legacy routes missing from the table")
+	}
+
 	var b strings.Builder
 	b.WriteString("import DymVerif.Model.Ante\nnamespace DymVerif.Gen.Guards\nopen DymVerif.Ante\n\n")
 	b.WriteString("/-- (module.Message, guard row) for every registered custom-module Msg handler and legacy gov content type -/\n")
